@@ -197,6 +197,7 @@ mod harnesses {
     }
 
     /// C10-b: under the invariant the fast path over specific objects agrees with the scan path.
+    #[cfg(not(verif_quick))]
     #[kani::proof]
     #[kani::unwind(18)]
     fn q_c10_listener_specific_objects_agree() {
@@ -222,6 +223,8 @@ mod harnesses {
     }
 
     /// C10-b: same for services.
+    // not registered: the SAT back end runs out of memory (> 14 GB) on this lemma with CAP = 3
+    #[cfg(verif_experimental)]
     #[kani::proof]
     #[kani::unwind(18)]
     fn q_c10_listener_specific_services_agree() {
@@ -251,6 +254,7 @@ mod harnesses {
 
     /// C10-b: two filters of fixed kinds (symbolic uuids): specific object + specific service
     /// cannot both take the fast paths; two specific objects are enumerated once each.
+    #[cfg(not(verif_quick))]
     #[kani::proof]
     #[kani::unwind(18)]
     fn q_c10_listener_two_filters_paths() {
